@@ -291,6 +291,17 @@ func (this *DatasetManager) processSnapshot(data []byte) error {
 			for _, partition := range this.datasets[id].partitions {
 				this.allocator.watch(partition)
 			}
+		} else {
+			// Replica sets may have changed while this node was behind.
+			for _, partitionMeta := range dataset.GetPartitions() {
+				partitionId, err := uuid.FromBytes(partitionMeta.GetId())
+				if err != nil {
+					return err
+				}
+				if partition, err := this.datasets[id].getPartition(partitionId); err == nil {
+					partition.setNodeIds(partitionMeta.GetNodeIds())
+				}
+			}
 		}
 	}
 	// The snapshot is the whole catalogue: datasets that it does not contain
